@@ -43,10 +43,19 @@ Definition Sealed (w : world) : Prop :=
 Definition FileSame (w w' : world) : Prop :=
   forall f, PF f -> nth_opt (w_files w') (N.to_nat f) = nth_opt (w_files w) (N.to_nat f).
 
+(* worlds only grow *)
+Definition Grow (w w' : world) : Prop :=
+  w_next w <= w_next w' /\ (List.length (w_models w) <= List.length (w_models w'))%nat /\
+  (List.length (w_files w) <= List.length (w_files w'))%nat.
+Lemma Grow_refl w : Grow w w.
+Proof. unfold Grow. repeat split; lia. Qed.
+Lemma Grow_trans a c d : Grow a c -> Grow c d -> Grow a d.
+Proof. unfold Grow. intros (A1 & A2 & A3) (B1 & B2 & B3). repeat split; lia. Qed.
+
 Definition Same (w w' : world) : Prop :=
   (forall i, P i -> w_nodes w' i = w_nodes w i) /\
   (forall m, PM m -> nth_opt (w_models w') (N.to_nat m) = nth_opt (w_models w) (N.to_nat m)) /\
-  FileSame w w'.
+  FileSame w w' /\ Grow w w'.
 
 Lemma FileSame_refl w : FileSame w w.
 Proof. intros f _. reflexivity. Qed.
@@ -56,13 +65,14 @@ Lemma FileSame_eq w w' : w_files w' = w_files w -> FileSame w w'.
 Proof. intros E f _. rewrite E. reflexivity. Qed.
 
 Lemma Same_refl w : Same w w.
-Proof. split; [reflexivity|split; [reflexivity|apply FileSame_refl]]. Qed.
+Proof. split; [reflexivity|split; [reflexivity|split; [apply FileSame_refl|apply Grow_refl]]]. Qed.
 Lemma Same_trans a c d : Same a c -> Same c d -> Same a d.
 Proof.
-  intros (A1 & A2 & A3) (B1 & B2 & B3). split; [|split].
+  intros (A1 & A2 & A3 & A4) (B1 & B2 & B3 & B4). split; [|split; [|split]].
   - intros i Hi. rewrite B1 by auto. auto.
   - intros m Hm. rewrite B2 by auto. auto.
   - eapply FileSame_trans; eauto.
+  - eapply Grow_trans; eauto.
 Qed.
 
 (* ------------------------------------------------------------------ the predicate on computations *)
@@ -126,7 +136,7 @@ Proof.
 Qed.
 Lemma Same_wset w i n' : ~ P i -> Same w (wset w i n').
 Proof.
-  intros Hi. split; [|split; [reflexivity|apply FileSame_eq; reflexivity]].
+  intros Hi. split; [|split; [reflexivity|split; [apply FileSame_eq; reflexivity|unfold Grow, wset; cbn; repeat split; lia]]].
   intros j Hj. unfold wset; cbn [w_nodes]. apply upd_neq. intros ->. auto.
 Qed.
 
@@ -164,7 +174,7 @@ Proof.
     + intros j n Hj Hn. unfold walloc in Hn; cbn [w_nodes] in Hn. destruct (N.eq_dec j (w_next w)) as [->|Hne].
       * rewrite upd_eq in Hn. injection Hn as <-. exact Hg.
       * rewrite upd_neq in Hn by exact Hne. eapply S2; eauto.
-  - split; [|split; [reflexivity|apply FileSame_eq; reflexivity]].
+  - split; [|split; [reflexivity|split; [apply FileSame_eq; reflexivity|unfold Grow, walloc; cbn; repeat split; lia]]].
     intros j Hj. unfold walloc; cbn [w_nodes]. apply upd_neq. intros ->. auto.
   - intros a [= <-]. exact Hfresh.
 Qed.
@@ -189,7 +199,8 @@ Proof.
 Qed.
 Lemma Same_wmodels w m x' : ~ PM m -> Same w (wmodels w (list_set (w_models w) (N.to_nat m) x')).
 Proof.
-  intros Hm. split; [reflexivity|]. split; [|apply FileSame_eq; reflexivity].
+  intros Hm. split; [reflexivity|]. split; [|split; [apply FileSame_eq; reflexivity|
+    unfold Grow, wmodels; cbn [w_next w_models w_files]; rewrite list_set_length; repeat split; lia]].
   intros m' Hm'. unfold wmodels; cbn [w_models]. rewrite nth_opt_nth_error, list_set_nth_neq, <- nth_opt_nth_error; auto.
   apply to_nat_neq. intros ->. auto.
 Qed.
@@ -254,7 +265,8 @@ Proof.
         -- rewrite nth_opt_nth_error in Ey. rewrite nth_opt_nth_error, (list_set_none _ _ _ Ey), <- nth_opt_nth_error in Hfl.
            rewrite <- nth_opt_nth_error in Ey. congruence.
       * rewrite Hold in Hfl by exact Hne. eapply S6; eauto.
-  - split; [reflexivity|]. split; [reflexivity|]. intros g Hg. cbn [w_files]. apply Hold. intros ->. auto.
+  - split; [reflexivity|]. split; [reflexivity|]. split; [intros g Hg; cbn [w_files]; apply Hold; intros ->; auto|].
+    unfold Grow; cbn [w_next w_models w_files]. rewrite list_set_length. repeat split; lia.
 Qed.
 
 (* ------------------------------------------------------------------ lists of ids that are outside P *)
